@@ -120,6 +120,7 @@ CANARIES = {
         ("taxii-all-versions-drops-version", "stix2/datastore/taxii.py", "text", ["self.query(query=query, version=version, _composite_filters", "self.query(query=query, _composite_filters"], "C14.version-in-scope"),
         ("v20-property-built-with-default-version", "stix2/v20/sdo.py", "text", ["IDProperty(_type, spec_version='2.0')", "IDProperty(_type)"], "C14.version-in-scope"),
         ("toplevel-extensions-on-2.0-objects", "stix2/base.py", "text", ["        if isinstance(extensions, collections.abc.Mapping) and \\\n                not isinstance(self, stix2.v20._STIXBase20):", "        if isinstance(extensions, collections.abc.Mapping):"], "C14.version-constants"),
+        ("new-object-escape-for-2.0", "stix2/parsing.py", "text", ['if version == "2.0" or not isinstance(extensions, collections.abc.Mapping):', 'if not isinstance(extensions, collections.abc.Mapping):'], "C14.version-constants"),
     ],
     "C15": [
         ("millisecond-two-digits", "stix2/utils.py", "int-1", ["format_datetime", "3 -> 2", ":3"], "C15.branch-table"),
